@@ -63,6 +63,8 @@ def cases(tier: str, seed: int) -> list[dict]:
             out.append({"sc": "hetero", "kind": kind, "dim": [3, 2][r % 2], "ps": bool(r % 2), "form": ["Ne", "NePg"][r % 2]})
             out.append({"sc": "update", "kind": kind, "dim": [3, 2][r % 2], "ps": bool((r // 2) % 2)})
             out.append({"sc": "walpole", "kind": kind})
+            # asked of a 2-D model (plane stress or plane strain): still the decomposition of the material's 3-D law
+            out.append({"sc": "walpole", "kind": kind, "wdim": 2, "ps": bool(r % 2), "form": ["homog", "Ne"][(r // 2) % 2]})
             out.append({"sc": "walpole", "kind": kind, "axes": ["unnormalised", "default", "orthonormal"][r % 3], "form": ["Ne", "NePg", "homog"][(r // 3 + r) % 3]})
             out.append({"sc": "walpole", "kind": kind, "axes": "unnormalised", "form": ["homog", "Ne", "NePg"][r % 3]})
             out.append({"sc": "update", "kind": kind, "dim": [2, 3][r % 2], "ps": bool(r % 2), "inplace": True})
@@ -421,7 +423,8 @@ def run_walpole(case, ctx, rng):
     kind = case["kind"]
     axes = case.get("axes", "orthonormal")
     form = case.get("form", "homog")
-    key = f"C11/walpole/{kind}" + ("" if (axes, form) == ("orthonormal", "homog") else f"/{axes}/{form}")
+    wdim = case.get("wdim", 3)
+    key = f"C11/walpole/{kind}" + ("" if (axes, form) == ("orthonormal", "homog") else f"/{axes}/{form}") + (f"/2D-model/ps={case['ps']}" if wdim == 2 else "")
     ctx.default_key = key
     p = gmat.law_params(rng, kind)
     shape = {"homog": (), "Ne": (4,), "NePg": (4, 3)}[form]
@@ -430,13 +433,14 @@ def run_walpole(case, ctx, rng):
         name = names[int(rng.integers(len(names)))]
         p = dict(p)
         p[name] = p[name] * rng.uniform(0.8, 1.25, shape)
-    a1, a2, P = _axes(rng, 3, axes)
+    a1, a2, P = _axes(rng, wdim, axes)
     try:
         with ctx.monitored("no-exception", key + "/raised", expect=(AssertionError,)):
             with quiet():
-                law = _make(kind, 3, p, a1, a2, False)
+                law = _make(kind, wdim, p, a1, a2, bool(case.get("ps", False)))
                 ci, Ei = law.Walpole_Decomposition()
-                C = np.asarray(law.C)
+                # (for a 2-D model the reference is the 3-D law of the same material, a second real object)
+                C = np.asarray((law if wdim == 3 else _make(kind, 3, p, a1, a2, False)).C)
     except AssertionError as e:
         # the decomposition carries its own consistency assertion: a failure of that assertion is a failure of the decomposition
         ctx.require("walpole-sum", False, key + "/assertion", message=str(e)[:200])
